@@ -7,7 +7,7 @@ ID = "C02"
 PROP_FILE = "Props/C02.v"
 THEOREMS = ["C02_exit_mapping", "C02_plan_end_decides", "C02_finalize_closes_open_runs", "C02_status_stable_until_finalize",
             "C02_abort_request_sets_reason", "C02_final_sleep_step", "C02_decision_reaches_stops", "C02_fail_closes_at_once",
-            "C02_outcome_of_call", "C02_failed_status_origin"]
+            "C02_outcome_of_call", "C02_failed_status_origin", "C02_interrupted_sticky", "C02_stop_halt_request_marks"]
 COQ_IMPORTS = dc.COQ_IMPORTS
 RULE = dc.RULE + (" || C02 judges single-cause runs only: exactly one of {plan returned, stop, abort, halt, pause/suspension in a "
                   "non-resumable section, unhandled exception}, with a plan that lets the thrown control exception propagate; "
@@ -94,6 +94,9 @@ def oracle(case, obs):
     if not blocked:
         return "no RE()/resume() outcome logged"
     last = blocked[-1]
+    left = dc.mon(case, obs)["open"]
+    if left:
+        return "run(s) %s still open when the plan ended by %s got no RunStop" % (left, cause)
     for s in engine_stops(obs):
         st, reason = s[3], s[4]
         if st != EXPECT[cause]:
